@@ -360,8 +360,10 @@ def persist_chain_system(rng, ncomp=None, name='ps', with_alpha=True, norms=Fals
         dist = f'U({lo}, {lo + w})'
         if grid_opts and grng0.random() < 0.35:      # distributions whose text form carries a third argument (log base) that a save must keep
             dist = grng0.choice(['LogUniform(0.5, 4, 2)', 'LogNormal(0, 0.25, 2)', 'LU(1, 8, base=3)'])
-        variables[f'x{k}'] = Variable(f'x{k}', distribution=dist,
-                                      norm=(rng.choice([None, 'linear(0.5, 1)', 'zscore(1, 2)']) if norms else None), **extra)
+        xnorm = (rng.choice([None, 'linear(0.5, 1)', 'zscore(1, 2)']) if norms else None)
+        if grid_opts and xnorm is None and dist.startswith('U(') and grng0.random() < 0.3:
+            xnorm = grng0.choice(['log(10, 5)', 'log(2, 3)'])      # shifted logarithm, written positionally (base, offset) in the saved file
+        variables[f'x{k}'] = Variable(f'x{k}', distribution=dist, norm=xnorm, **extra)
     for s in spec:
         for o in s['outputs']:
             variables[o] = Variable(o, domain=(-50.0, 50.0), norm=(rng.choice([None, 'linear(0.5, 1)']) if norms else None))
